@@ -175,7 +175,7 @@ pub fn decode(s: &mut Src) -> Case {
 pub fn check(rep: &Report) {
     rep.assume("updates are uncompressed and unfragmented (the property's stated domain); fast-path security flags are 0 (TLS)");
     rep.assume("unsupported update kinds carry opaque bodies; the client is only required to skip them");
-    rep.random("streams", rep.tier.n(30_000, 3_000_000), 400, decode, run);
+    rep.random("streams", rep.tier.n(60_000, 4_000_000), 400, decode, run);
     rep.require("streams", "non-bitmap-before-bitmap", 1000);
     rep.require("streams", "multi-bitmap-update", 1000);
 }
